@@ -456,7 +456,10 @@ class Ctx:
         if os.path.exists(kf):
             data = json.load(open(kf))
             self.known = [k for k in data.get("findings", []) if k["property"] == pid]
-        self.vdir = os.path.join(VERIF, "out", "violations", pid)
+        # VERIF_OUT redirects evidence and violation records (used only when a check is pointed at a scratch
+        # worktree carrying a seeded change, so that the committed evidence of the real tree is not overwritten)
+        self.outroot = os.environ.get("VERIF_OUT")
+        self.vdir = os.path.join(self.outroot or os.path.join(VERIF, "out"), "violations", pid)
 
     # --- TLC bookkeeping
     def tlc(self, module, cfg, cwd, label=None, expect_ok=True, **kw):
@@ -564,8 +567,9 @@ class Ctx:
             "violations": len(self.violations),
         }
         ev["coverage"].update(self.notes)
-        os.makedirs(os.path.join(VERIF, "evidence"), exist_ok=True)
-        with open(os.path.join(VERIF, "evidence", self.pid + ".json"), "w") as fh:
+        evdir = os.path.join(self.outroot, "evidence") if self.outroot else os.path.join(VERIF, "evidence")
+        os.makedirs(evdir, exist_ok=True)
+        with open(os.path.join(evdir, self.pid + ".json"), "w") as fh:
             json.dump(ev, fh, indent=1, default=str)
         print("%s tier=%s states=%d transitions=%d traces=%d evaluations=%d nontrivial=%d violations=%d wall=%.1fs"
               % (self.pid, self.tier, self.states, self.transitions, self.traces, self.evaluations,
